@@ -780,7 +780,12 @@ class Generator:
                     head = txt[toks[s[pi]].start:lb]
                     nm = ls.desugar
                     inserts.append((toks[s[pi]].start,
-                                    Seg(keep_newlines(head, 'let mut %s = %s; loop ' % (nm, expr)), 'src'), lb))
+                                    Seg(keep_newlines(head, '{ let mut %s = %s; ' % (nm, expr)), 'src'), lb))
+                    for pf in c.proofs:
+                        if pf.mode == 'loopinit' and int(pf.regex) == n:
+                            inserts.append((lb, Seg('\n' + pf.text.rstrip('\n') + '\n', 'proof', oid=pf.oid,
+                                                    tags=tuple(pf.tags), ckind='proof', addr=addr), lb))
+                    inserts.append((lb, Seg(' loop ', 'src'), lb))
                     self.rules.hit('R11')
                     close_tok = match_close(toks, s[r])
                     desugar_open = [(lb, Seg('{', 'src'), lb + 1)]
@@ -802,6 +807,7 @@ class Generator:
                     if pf.mode == 'loopend' and int(pf.regex) == n:
                         loopend_segs.append((toks[close_tok].end, Seg('\n' + pf.text.rstrip('\n') + '\n', 'proof', oid=pf.oid,
                                              tags=tuple(pf.tags), ckind='proof', addr=addr), toks[close_tok].end))
+                if not ls.desugar:
                     for pf in c.proofs:
                         if pf.mode in ('loophead', 'loopbody') and int(pf.regex) == n:
                             inserts.append((lb + 1, Seg('\n' + pf.text.rstrip('\n') + '\n', 'proof', oid=pf.oid,
@@ -829,6 +835,9 @@ class Generator:
                     inserts.extend(desugar_open)
                     inserts.append(desugar_close)
                 inserts.extend(loopend_segs)
+                if desugar_open:
+                    # the iterator lives exactly as long as the `for` loop did (plus the ghost text after it)
+                    inserts.append((toks[close_tok].end, Seg(' }', 'src'), toks[close_tok].end))
             # ownership conditions checked on the source text (Rust drop rules): a named binding declared
             # by `let VAR = <decl>` must still be alive (same or enclosing block, not moved, not dropped)
             # at the statement matched by `until`
@@ -870,7 +879,7 @@ class Generator:
                 seg = Seg('\n' + pf.text.rstrip('\n') + '\n', 'proof', oid=pf.oid, tags=tuple(pf.tags), ckind='proof', addr=addr)
                 if pf.mode == 'start':
                     inserts.append((b_lo, seg, b_lo)); continue
-                if pf.mode in ('loophead', 'loopbody', 'loopend'):
+                if pf.mode in ('loophead', 'loopbody', 'loopend', 'loopinit'):
                     if int(pf.regex) not in c.loops:
                         raise ToolCondition('%s: @proof %s %s without @loop' % (addr, pf.mode, pf.regex))
                     continue
